@@ -1,6 +1,7 @@
 package c17
 
 import (
+	"bytes"
 	"context"
 	"encoding/json"
 	"fmt"
@@ -187,6 +188,16 @@ func jsonStr(s string) string {
 
 func (g *gen) data(name string) *node {
 	body := fmt.Sprintf("verif-secret:%s:%016x:only-for-authorised-eyes", name, g.salt)
+	// now and then a blob at the sizes where the blob handler changes how it answers (32 KiB: sniffed and
+	// served from memory below, streamed above), text or binary
+	if g.t != nil && rapid.IntRange(0, 7).Draw(g.t, "bigData") == 0 {
+		n := rapid.SampledFrom([]int{32767, 32768, 32768, 32769, 65536, 100000}).Draw(g.t, "dataSize")
+		fill := byte('.')
+		if rapid.Bool().Draw(g.t, "binaryData") {
+			fill = 0xfe
+		}
+		body += string(bytes.Repeat([]byte{fill}, n-len(body)))
+	}
 	return g.w.add(&node{Name: name, Kind: "data", data: []byte(body), size: int64(len(body))})
 }
 
